@@ -75,6 +75,7 @@ def build_topology(topo):
 
 
 # ---- rule tables -----------------------------------------------------------------------------------------
+ALT_MASKS = {"spine": "sp{x:[a-z]+}{n:\\d+}", "leaf": "le{y:[a-z]+}{m:\\d+}", "tor": "to{z:[a-z]+}{k:\\d+}-{j:\\d+}"}
 MASKS = {"spine": ["spine{n}", "spine{n:\\d+}"], "leaf": ["leaf{m}", "leaf{m:\\d+}"], "tor": ["tor{k}-{j}"], "rr": ["rr{r}"]}
 
 
@@ -90,7 +91,7 @@ def gen_rules(rng, topo):
                 "asn_l": 64000 + rng.randint(0, 9) * 100, "asn_r": 65000 + rng.randint(0, 9) * 100,
                 "families": rng.sample(["ipv4_unicast", "ipv6_unicast", "ipv4_labeled_unicast"], rng.randint(1, 2)),
                 "bfd": rng.random() < 0.5, "iface": rng.choice(["port", "port", "lag", "subif", "subif0", "lag+subif", "svi"]),
-                "mtu": rng.choice([None, 1500, 9000]), "role": "base",
+                "mtu": rng.choice([None, 1500, 9000]), "role": "base", "v6": rng.random() < 0.3,
                 # per-peer options, assigned alike on both sides, with values of the declared types
                 "peer_opts": dict(rng.sample([("multihop", 3), ("rr_client", True), ("hold_time", 30), ("af_loops", 2), ("af_rib_group", "rg1"),
                                               ("listen_network", ["10.0.0.0/8"]), ("next_hop_self", True), ("remove_private", True), ("passive", True),
@@ -106,6 +107,10 @@ def gen_rules(rng, topo):
             rules.append(extra)
         if x < 0.15:
             rules.append(dict(base, role="extra2", send_community=True, families=["ipv4_unicast"]))
+        if rng.random() < 0.4:
+            # the same sessions matched once more by a rule written with other templates (other capture groups): its data merges into the same peers
+            kl, kr = (lk, rk)
+            rules.append(dict(base, role="extra4", left=ALT_MASKS[kl], right=ALT_MASKS[kr], families=list(base["families"]), description=None, peer_opts={}, filter=None))
     if "rr" in kinds and "spine" in kinds and rng.random() < 0.8:
         rules.append({"type": "indirect", "left": "spine{n}", "right": "rr{r}", "net": rng.randint(1, 200), "asn_l": 64500, "asn_r": 64600,
                       "families": ["ipv4_unicast"], "iface": rng.choice(["none", "svi", "lo0", "lo0+subif"]), "role": "base",
@@ -143,6 +148,9 @@ def port_index(ports):
 def addrs_for(rule, li, ri, lports):
     third = (li * 16 + ri) % 250
     k = port_index(lports) if rule.get("ports") == "separate" else 0
+    if rule.get("v6"):
+        # valid but not canonical spellings (upper-case hex, leading zeros): the peer address is an address, not a text
+        return "2001:DB8:%04X:%X::%X/127" % (rule["net"], third, 0xA0 + 2 * k), "2001:DB8:%04X:%X::%X/127" % (rule["net"], third, 0xA0 + 2 * k + 1)
     return "10.%d.%d.%d/31" % (rule["net"], third, 2 * k), "10.%d.%d.%d/31" % (rule["net"], third, 2 * k + 1)
 
 
